@@ -142,6 +142,19 @@ M('c05-precond-gated', 'C05', 'DOM-ALWAYS', 'preconditioning skipped off inverse
   (BP, "            if self._assignment.is_grad_worker(name):\n                layer.preconditioned_grad(damping=self.damping)", "            if self._assignment.is_grad_worker(name) and self.steps % self.inv_update_steps == 0:\n                layer.preconditioned_grad(damping=self.damping)"))
 M('c05-so-written-elsewhere', 'C05', 'OWN-SO', 'preconditioned_grad recomputes eigenvalues clamp in place of cache',
   (LE, "        grad = self.module.get_grad()\n        grad_type = grad.dtype\n        grad = grad.to(self.qa.dtype)\n        v1 = self.qg.t() @ grad @ self.qa", "        grad = self.module.get_grad()\n        grad_type = grad.dtype\n        grad = grad.to(self.qa.dtype)\n        self.qa = self.qa.contiguous()\n        v1 = self.qg.t() @ grad @ self.qa"))
+M('c05-dirty-flag-inverse', 'C05', 'DOM-INVGATE', 'inverse refresh skipped while a dirty flag (cleared in step, set in the hooks) is off; read through a local',
+  (BP, "        self._mini_steps: dict[str, int] = defaultdict(int)\n", "        self._mini_steps: dict[str, int] = defaultdict(int)\n        self._dirty = True\n"),
+  (BP, "        if self.steps % self.inv_update_steps == 0:\n            for name, layer in reversed(list(self._layers.values())):\n                if get_rank() == self._assignment.inv_worker(name, 'A'):",
+       "        stale = self._dirty\n        self._dirty = False\n        if self.steps % self.inv_update_steps == 0 and stale:\n            for name, layer in reversed(list(self._layers.values())):\n                if get_rank() == self._assignment.inv_worker(name, 'A'):"),
+  (BP, "                layer.update_a_factor(alpha=self.factor_decay)\n                layer.reduce_a_factor(self._assignment.factor_group(name, 'A'))\n\n    @torch.no_grad()",
+       "                layer.update_a_factor(alpha=self.factor_decay)\n                layer.reduce_a_factor(self._assignment.factor_group(name, 'A'))\n                self._dirty = True\n\n    @torch.no_grad()"))
+M('c05-grad-phase-mutable-flag', 'C05', 'DOM-ALWAYS', 'preconditioning skipped while a flag toggled by step() is off',
+  (BP, "        self._mini_steps: dict[str, int] = defaultdict(int)\n", "        self._mini_steps: dict[str, int] = defaultdict(int)\n        self._warm = False\n"),
+  (BP, "            if self._assignment.is_grad_worker(name):\n                layer.preconditioned_grad(damping=self.damping)", "            if self._assignment.is_grad_worker(name) and self._warm:\n                layer.preconditioned_grad(damping=self.damping)"),
+  (BP, "        self._steps += 1\n        self._mini_steps = defaultdict(int)\n", "        self._steps += 1\n        self._warm = True\n        self._mini_steps = defaultdict(int)\n"))
+T('c05-twin-guard-on-construction-field', 'C05', 'inverse gate also tests a field that only __init__ writes (always true)',
+  (BP, "        self._mini_steps: dict[str, int] = defaultdict(int)\n", "        self._mini_steps: dict[str, int] = defaultdict(int)\n        self._enabled = True\n"),
+  (BP, "        if self.steps % self.inv_update_steps == 0:\n            for name, layer in reversed(", "        if self.steps % self.inv_update_steps == 0 and self._enabled:\n            for name, layer in reversed("))
 T('c05-twin-hoist-damping-step', 'C05', 'damping hoisted to a local at the top of step()',
   (BP, "        # Compute Inverses\n        if self.steps % self.inv_update_steps == 0:", "        damping = self.damping\n        # Compute Inverses\n        if self.steps % self.inv_update_steps == 0:"),
   (BP, "                if get_rank() == self._assignment.inv_worker(name, 'A'):\n                    layer.compute_a_inv(damping=self.damping)", "                if get_rank() == self._assignment.inv_worker(name, 'A'):\n                    layer.compute_a_inv(damping=damping)"))
